@@ -3,7 +3,7 @@ import genb
 from vlib import rnd_u64, U64
 from props.codec_common import CODEC_TRUSTED, split_out
 
-THEOREMS = ["C08_update_exact", "C08_update_total", "C08_frame", "C08_code_structure", "C08_code_structure_wf"]
+THEOREMS = ["C08_update_exact", "C08_update_total", "C08_frame", "C08_code_structure", "C08_code_structure_wf", "C08_tie_hop_count"]
 RELEASE = True
 OFFSET = 946684800000
 RULE = ("OPS <clock> <bundle> ; UPD <node> <residence>: every (limit, count) pair of the hop-count block (65 536, exhaustive) and the "
